@@ -6,6 +6,7 @@ import itertools
 
 from ..absint import HList, HDict, NONE, const, is_const, fmt
 from ..astutil import unparse
+from ..names import N
 from ..common import AnalysisError, Report
 from ..facts import facts
 from .. import nf
@@ -172,7 +173,7 @@ def rule_vocab(rep: Report, rid="C17.vocab") -> None:
     from . import matcher_rules as mr
     from ..absint import new_interp
     I = new_interp()
-    q = f"{mr.MQ}._change_dialect"
+    q = f"{mr.MQ}.{N.CHANGE_DIALECT}"
     fi = I.facts.func(q)
     tree, rv, st = I.run(q)
     vals = sorted({n[3][0][1] for n, _ in nf.iter_nodes(tree) if n[0] == "mutate" and n[2] == "append" and n[3] and is_const(n[3][0]) and isinstance(n[3][0][1], str)})
